@@ -8,7 +8,7 @@ from pyvc.values import (Struct, Sym, SymSeq, PDict, term, wrap, zand, zor, znot
                          zeq, Unsupported)
 from pyvc.builtins import seq_slice, seq_arith
 from spec.idx import (IdxSort, idx_space, idx_spin, orb, orb_spin, valid_index,
-                      range_disjoint, same_orbital, SPACES)
+                      range_disjoint, same_orbital, SPACES, SPINS)
 from spec.sq import (OpSort, OpArr, op_class, op_idx, valid_op, pair_vev, vev,
                      new_opseq)
 from spec.exprval import mk_expr, as_expr, new_sumlist, list_total, ASSUMED_SYMPY, real
@@ -21,7 +21,7 @@ ASSUMPTIONS = ASSUMED_SYMPY + [
 ]
 TRUSTED = ["Wick's theorem (specification of vev)"]
 
-F, FD = z3.StringVal("F"), z3.StringVal("Fd")
+F, FD = 0, 1
 
 
 # --- models of the objects _contraction builds ---------------------------------
@@ -32,8 +32,8 @@ def model_Index(ip, args, kwargs):
     t = vc.fresh("fresh_idx", IdxSort)
     space = "virt" if kwargs.get("above_fermi") else ("occ" if kwargs.get("below_fermi") else "general")
     spin = "a" if kwargs.get("alpha") else ("b" if kwargs.get("beta") else "")
-    vc.assume(idx_space(t) == z3.StringVal(space))
-    vc.assume(idx_spin(t) == z3.StringVal(spin))
+    vc.assume(idx_space(t) == SPACES.index(space))
+    vc.assume(idx_spin(t) == SPINS.index(spin))
     vc.ghost.setdefault("fresh_sum_idx", {})[t.get_id()] = 0
     return Sym(t, "Index")
 
@@ -49,8 +49,8 @@ def model_KroneckerDelta(ip, args, kwargs):
         if fresh[j.t.get_id()] > 1:
             raise Unsupported("fresh summation index used twice")
         # summed-delta lemma: sum_x delta(i, x) = [sigma(i) in range(x)]
-        sp = ip.getattr(j, "space")
-        spn = ip.getattr(j, "spin")
+        sp = vc.concretize(ip.getattr(j, "space"))
+        spn = vc.concretize(ip.getattr(j, "spin"))
         if spn:
             raise Unsupported("fresh summation index with spin")
         inrange = {"occ": orb(i.t) < 0, "virt": orb(i.t) >= 0, "general": z3.BoolVal(True)}[sp]
@@ -86,7 +86,7 @@ class Contraction(Contract):
     def _bad(v):
         if not isinstance(v, Sym):
             return True
-        return idx_spin(op_idx(v.t)) != z3.StringVal("")
+        return idx_spin(op_idx(v.t)) != 0
 
     def raises(self, vc, a):
         return [("NotImplementedError", zor(self._bad(a["p"]), self._bad(a["q"])))]
@@ -103,15 +103,15 @@ class Contraction(Contract):
 
 
 # --- counting prefilter -------------------------------------------------------
-ncre = z3.Function("ncre", OpArr, z3.StringSort(), z3.IntSort(), z3.IntSort())
-nann = z3.Function("nann", OpArr, z3.StringSort(), z3.IntSort(), z3.IntSort())
+ncre = z3.Function("ncre", OpArr, z3.IntSort(), z3.IntSort(), z3.IntSort())
+nann = z3.Function("nann", OpArr, z3.IntSort(), z3.IntSort(), z3.IntSort())
 
 
 def count_unfold(vc, arr, k):
     """definitional unfolding of the prefix counts at position k"""
     k = term(k)
     for s in SPACES:
-        sv = z3.StringVal(s)
+        sv = SPACES.index(s)
         vc.assume(ncre(arr, sv, 0) == 0)
         vc.assume(nann(arr, sv, 0) == 0)
         here = idx_space(op_idx(arr[k])) == sv
@@ -122,7 +122,7 @@ def count_unfold(vc, arr, k):
 
 
 def imbalance(arr, n, s):
-    sv, g = z3.StringVal(s), z3.StringVal("general")
+    sv, g = SPACES.index(s), SPACES.index("general")
     return ncre(arr, sv, n) - nann(arr, sv, n) - nann(arr, g, n) > 0
 
 
@@ -149,7 +149,7 @@ class CountLoop(LoopContract):
         if set(frame["create"].d) != set(SPACES) or set(frame["annihilate"].d) != set(SPACES):
             return [("counters-have-the-three-spaces", False)]
         for s in SPACES:
-            sv = z3.StringVal(s)
+            sv = SPACES.index(s)
             out.append((f"create[{s}]-is-prefix-count", zeq(frame["create"].d[s], ncre(arr, sv, term(k)))))
             out.append((f"annihilate[{s}]-is-prefix-count", zeq(frame["annihilate"].d[s], nann(arr, sv, term(k)))))
         return out
@@ -245,7 +245,7 @@ class ContractOperatorString(Contract):
         k = z3.Int("k!spin")
         return [("NotImplementedError",
                  z3.Exists([k], z3.And(k >= 0, k < term(seq.len),
-                                       idx_spin(op_idx(seq.arrs[0][k])) != z3.StringVal(""))))]
+                                       idx_spin(op_idx(seq.arrs[0][k])) != 0)))]
 
     def fresh_result(self, vc, a):
         z = vc.fresh_bool("rzero")
@@ -283,7 +283,7 @@ def imbalance_step():
     hyp = z3.And(valid_op(p), valid_op(q), pair_vev(p, q) != 0)
     out = []
     for s in ("occ", "virt"):
-        sv, g = z3.StringVal(s), z3.StringVal("general")
+        sv, g = SPACES.index(s), SPACES.index("general")
 
         def cre(o):
             return z3.If(z3.And(op_class(o) == FD, idx_space(op_idx(o)) == sv), 1, 0)
